@@ -289,7 +289,7 @@ static void vf_init(int argc, char **argv, const char *prop, const char *level)
     const char *s = getenv("VERIF_SEED");
     if (s) vf_seed = atoi(s);
     snprintf(vf_evidence_path, sizeof vf_evidence_path, "%s/evidence/%s.json", VF_VERIF_DIR, prop);
-    if (getenv("VERIF_EVIDENCE_DIR")) snprintf(vf_evidence_path, sizeof vf_evidence_path, "%s/%s.json", getenv("VERIF_EVIDENCE_DIR"), prop);
+    if (getenv("VERIF_EVIDENCE_DIR")) { mkdir(getenv("VERIF_EVIDENCE_DIR"), 0777); snprintf(vf_evidence_path, sizeof vf_evidence_path, "%s/%s.json", getenv("VERIF_EVIDENCE_DIR"), prop); }
     for (int i = 1; i < argc; i++) {
         if (!strcmp(argv[i], "--tier") && i + 1 < argc) vf_thorough = !strcmp(argv[++i], "thorough");
         else if (!strcmp(argv[i], "--replay") && i + 1 < argc) vf_replay_file = argv[++i];
